@@ -111,21 +111,21 @@ func tr(name, module string, n, files int) legCfg {
 var props = map[string]*propCfg{
 	"C01": {
 		ID: "C01", Level: "model_checking", Exhaustive: true,
-		Rule:        "TLC enumerates every table (<= MaxRows rows per column family: numeric, string, boolean/nullable, two numeric columns, IN-subquery) x every predicate of the family's grammar (comparisons, IN / NOT IN lists, BETWEEN, LIKE patterns, IS, NOT / AND / OR combinations, De Morgan pairs); each case is replayed as SELECT * FROM t WHERE p and the row sequence compared. Leg T adds seeded random tables (0-8 rows, 5 typed columns) x predicates to depth 5, validated event by event against EngineTrace. A case is non-trivial when the predicate keeps some but not all rows; distinct = distinct (table, predicate) pairs. Leg T also validates the repository's own test suite: run with the recorder behind the verif tag, each New / Exec call of the tests whose query text translates into the specification's AST (and each recorded input the tests never execute, executed by the harness) is checked stage by stage against EngineTrace.",
+		Rule:        "TLC enumerates every table (<= MaxRows rows per column family: numeric, string, boolean/nullable, two numeric columns, IN-subquery) x every predicate of the family's grammar (comparisons, IN / NOT IN lists, BETWEEN, LIKE patterns, IS, NOT / AND / OR combinations, De Morgan pairs); each case is replayed as SELECT * FROM t WHERE p and the row sequence compared. Leg T adds seeded random tables (0-8 rows, 5 typed columns) x predicates to depth 5, validated event by event against EngineTrace. A case is non-trivial when the predicate keeps some but not all rows; distinct = distinct (table, predicate) pairs. Leg T also validates the repository's own test suite: run with the recorder behind the verif tag, each New / Exec call of the tests whose query text translates into the specification's AST (and each recorded input the tests never execute, executed by the harness) is checked stage by stage against EngineTrace. Round 4: every case of the numeric family once more with its numbers renamed in order to float64 neighbours one unit in the last place apart and to the integers just below 2^53 (an order embedding leaves the meaning of comparisons unchanged), compared exactly; NOT IN over a subquery; every case once more with equal parts of the document being one Go value.",
 		Assumptions: baseAssumptions,
 		Quick:       []legCfg{mc("where", "MC_C01", "C01_quick.cfg", 10*time.Minute), tr("where", "EngineTrace", 400, 4), repo("where")},
 		Thorough:    []legCfg{mc("where", "MC_C01", "C01_thorough.cfg", 40*time.Minute), mc("deep", "MC_C01", "C01_deep.cfg", 40*time.Minute), tr("where", "EngineTrace", 2500, 12), repo("where")},
 	},
 	"C05": {
 		ID: "C05", Level: "model_checking", Exhaustive: true,
-		Rule:        "TLC enumerates (a) every table of <= MaxRows rows over a numeric, a string and a nullable column x every key list (1 key incl. the nullable one, 2 keys, all ASC/DESC mixes, also on an aliased output column) x three windows, and (b) every table of <= MaxWin position-identified rows x {no order, ASC, DESC} x every (limit, offset) pair from {0,1,2,3,5} x {absent,0,1,2,4,6} in both LIMIT spellings. Each case is replayed: the key-tuple sequence must equal the specification's, the rows must be a permutation, and a windowed result must be exactly the window of the engine's own ordered sequence. Leg T: seeded random tables (0-10 rows, 4 columns), 1-3 keys, limits/offsets 0-11, validated event by event (OrderOK, window). Non-trivial: sorting changes the sequence or the window cuts it; distinct = distinct (table, query) pairs. Leg T also validates the repository's own test suite: run with the recorder behind the verif tag, each New / Exec call of the tests whose query text translates into the specification's AST (and each recorded input the tests never execute, executed by the harness) is checked stage by stage against EngineTrace.",
+		Rule:        "TLC enumerates (a) every table of <= MaxRows rows over a numeric, a string and a nullable column x every key list (1 key incl. the nullable one, 2 keys, all ASC/DESC mixes, also on an aliased output column) x three windows, and (b) every table of <= MaxWin position-identified rows x {no order, ASC, DESC} x every (limit, offset) pair from {0,1,2,3,5} x {absent,0,1,2,4,6} in both LIMIT spellings. Each case is replayed: the key-tuple sequence must equal the specification's, the rows must be a permutation, and a windowed result must be exactly the window of the engine's own ordered sequence. Leg T: seeded random tables (0-10 rows, 4 columns), 1-3 keys, limits/offsets 0-11, validated event by event (OrderOK, window). Non-trivial: sorting changes the sequence or the window cuts it; distinct = distinct (table, query) pairs. Leg T also validates the repository's own test suite: run with the recorder behind the verif tag, each New / Exec call of the tests whose query text translates into the specification's AST (and each recorded input the tests never execute, executed by the harness) is checked stage by stage against EngineTrace. Round 4: counts 8-11 on a 12-row table, every windowed case also with zero-padded counts, and every case without arithmetic with its numbers embedded in order into int64 values above 2^53 and float64 neighbours (compared exactly with the embedded result of the plain run).",
 		Assumptions: baseAssumptions,
 		Quick:       []legCfg{mc("order", "MC_C05", "C05_quick.cfg", 10*time.Minute), tr("order", "EngineTrace", 300, 4), mix(200, 3), repo("order")},
 		Thorough:    []legCfg{mc("order", "MC_C05", "C05_thorough.cfg", 40*time.Minute), tr("order", "EngineTrace", 2000, 12), mix(1500, 12), repo("order")},
 	},
 	"C02": {
 		ID: "C02", Level: "model_checking", Exhaustive: true,
-		Rule:        "TLC enumerates (a) one aliased expression per case from the grammar: 10 atoms (columns a, b, nested n.p, a missing key, constants 0 1 2 3 -1 1/2), every binary operator (+ - * / DIV % & | ^ << >>) and unary operator (- ~ !) over all atom pairs, depth-2 trees over a core set, CASE WHEN with 1-2 arms with/without ELSE, on every 1-row (thorough: also 2-row) table drawn from 5 rows incl. a NULL operand, keeping only inputs whose meaning the statement fixes (no division by zero etc.); (b) every select list of 1-3 items from 9 items (star, bare / aliased columns, nested path, missing key, expressions, a literal, clashing names) x every table of <= MaxRows rows x {no WHERE, WHERE}. Each case is replayed and the exact row sequence (key sets and values) compared. Leg T: seeded random tables (0-6 rows) x select lists of 1-4 items with trees to depth 5. Non-trivial: at least one output row and not a lone bare column / literal; distinct = distinct (table, query) pairs. Leg T also validates the repository's own test suite: run with the recorder behind the verif tag, each New / Exec call of the tests whose query text translates into the specification's AST (and each recorded input the tests never execute, executed by the harness) is checked stage by stage against EngineTrace. A further trace leg projects 1100-1300 distinct columns in one select list (any number of items: more distinct column selectors than a bounded cache holds).",
+		Rule:        "TLC enumerates (a) one aliased expression per case from the grammar: 10 atoms (columns a, b, nested n.p, a missing key, constants 0 1 2 3 -1 1/2), every binary operator (+ - * / DIV % & | ^ << >>) and unary operator (- ~ !) over all atom pairs, depth-2 trees over a core set, CASE WHEN with 1-2 arms with/without ELSE, on every 1-row (thorough: also 2-row) table drawn from 5 rows incl. a NULL operand, keeping only inputs whose meaning the statement fixes (no division by zero etc.); (b) every select list of 1-3 items from 9 items (star, bare / aliased columns, nested path, missing key, expressions, a literal, clashing names) x every table of <= MaxRows rows x {no WHERE, WHERE}. Each case is replayed and the exact row sequence (key sets and values) compared. Leg T: seeded random tables (0-6 rows) x select lists of 1-4 items with trees to depth 5. Non-trivial: at least one output row and not a lone bare column / literal; distinct = distinct (table, query) pairs. Leg T also validates the repository's own test suite: run with the recorder behind the verif tag, each New / Exec call of the tests whose query text translates into the specification's AST (and each recorded input the tests never execute, executed by the harness) is checked stage by stage against EngineTrace. A further trace leg projects 1100-1300 distinct columns in one select list (any number of items: more distinct column selectors than a bounded cache holds). Round 4: CASE arms that would fail if evaluated although not taken; FUSE items (the keys of an object blended into the row, with and without prefix, before and after items of the same name, next to a star); driver bignum evaluates the definitions of Arith with math/big on 22 operand pairs TLC cannot hold (+ - * /: nearest float64; %: exact).",
 		Assumptions: append([]string{"numbers are compared exactly when the expected value is dyadic, otherwise within 1e-12 relative (IEEE rounding of the engine's float64 arithmetic against the specification's exact rationals)"}, baseAssumptions...),
 		Quick:       []legCfg{mc("proj", "MC_C02", "C02_quick.cfg", 10*time.Minute), tr("proj", "EngineTrace", 300, 4), mix(200, 3), repo("all"), wide(2, 1), {Kind: "exec", Name: "bignum", Mode: "bignum", Timeout: 2 * time.Minute}},
 		Thorough:    []legCfg{mc("proj", "MC_C02", "C02_thorough.cfg", 40*time.Minute), tr("proj", "EngineTrace", 2000, 12), mix(1500, 12), repo("all"), wide(3, 3), {Kind: "exec", Name: "bignum", Mode: "bignum", Timeout: 2 * time.Minute}},
@@ -139,14 +139,14 @@ var props = map[string]*propCfg{
 	},
 	"C06": {
 		ID: "C06", Level: "model_checking", Exhaustive: true,
-		Rule:        "TLC enumerates (a) SELECT DISTINCT over every table of <= MaxRows rows from a pool of 7 rows whose textual fingerprints coincide although the rows differ ({a:'x b:y'} / {a:'x',b:'y'}, 1 / '1', missing / NULL) x 4 select lists x 3 windows; (b) two-branch unions over every pair of tables of <= MaxBranch rows x {UNION, UNION ALL} x 4 windows x {plain, filtered right branch}; (c) three-branch chains over every triple of tables x all four UNION / UNION ALL mixes x 2 windows. Each case is replayed and the exact row sequence compared. Leg T: seeded random 1-4 branch chains over tables of 0-6 rows, DISTINCT branches, LIMIT/OFFSET. Non-trivial: the un-deduplicated result contains a duplicate row; distinct = distinct (document, query) pairs.",
+		Rule:        "TLC enumerates (a) SELECT DISTINCT over every table of <= MaxRows rows from a pool of 7 rows whose textual fingerprints coincide although the rows differ ({a:'x b:y'} / {a:'x',b:'y'}, 1 / '1', missing / NULL) x 4 select lists x 3 windows; (b) two-branch unions over every pair of tables of <= MaxBranch rows x {UNION, UNION ALL} x 4 windows x {plain, filtered right branch}; (c) three-branch chains over every triple of tables x all four UNION / UNION ALL mixes x 2 windows. Each case is replayed and the exact row sequence compared. Leg T: seeded random 1-4 branch chains over tables of 0-6 rows, DISTINCT branches, LIMIT/OFFSET. Non-trivial: the un-deduplicated result contains a duplicate row; distinct = distinct (document, query) pairs. Round 4: the largest counts behind an offset on unions; rows reaching one array / object by two routes under DISTINCT.",
 		Assumptions: baseAssumptions,
 		Quick:       []legCfg{mc("distinct", "MC_C06", "C06_quick.cfg", 10*time.Minute), tr("distinct", "EngineTrace", 300, 4), mix(200, 3)},
 		Thorough:    []legCfg{mc("distinct", "MC_C06", "C06_thorough.cfg", 40*time.Minute), tr("distinct", "EngineTrace", 2000, 12), mix(1500, 12)},
 	},
 	"C15": {
 		ID: "C15", Level: "model_checking", Exhaustive: true,
-		Rule:        "TLC enumerates every ordered pair over the domain: every Go numeric kind of the run x every one of 31 boundary points it represents exactly (-2^53 .. 2^53: negatives, zero, halves, min/max of the narrow kinds and their neighbours) plus 13 strings (empty, numeric-looking, prefixes of each other, the %v text of 2147483647 as an integer kind and as a float kind); triples by quantifying over the third value in the invariants. Every pair is exported; the harness builds the real Go values, checks the specification's %v text against fmt, calls compare.Compare, runs the six comparison operators of WHERE on a natively typed row, ORDER BY in both directions on the two values (pairs that are not equal), IN over the other value and an equi-join of two one-row tables (joined iff cmp = 0). Non-trivial: operands of different numeric kinds, or a string operand; distinct = distinct ordered pairs.",
+		Rule:        "TLC enumerates every ordered pair over the domain: every Go numeric kind of the run x every one of 31 boundary points it represents exactly (-2^53 .. 2^53: negatives, zero, halves, min/max of the narrow kinds and their neighbours) plus 13 strings (empty, numeric-looking, prefixes of each other, the %v text of 2147483647 as an integer kind and as a float kind); triples by quantifying over the third value in the invariants. Every pair is exported; the harness builds the real Go values, checks the specification's %v text against fmt, calls compare.Compare, runs the six comparison operators of WHERE on a natively typed row, ORDER BY in both directions on the two values (pairs that are not equal), IN over the other value and an equi-join of two one-row tables (joined iff cmp = 0). Non-trivial: operands of different numeric kinds, or a string operand; distinct = distinct ordered pairs. Round 4: points 2^63, 2^64 - 2048 and the largest float32.",
 		Assumptions: append([]string{"float64 holds every point of the domain exactly (|x| <= 2^53): 'within the exactly-representable range' of the statement"}, baseAssumptions...),
 		Quick:       []legCfg{mc("pairs", "MC_C15", "C15_quick.cfg", 10*time.Minute)},
 		Thorough:    []legCfg{mc("pairs", "MC_C15", "C15_thorough.cfg", 30*time.Minute)},
@@ -160,28 +160,28 @@ var props = map[string]*propCfg{
 	},
 	"C20": {
 		ID: "C20", Level: "model_checking", Exhaustive: true,
-		Rule:        "TLC explores the SETVAR / GETVAR state machine (Vars.tla, one action per call) for every select list of 1..MaxItems items drawn from 11 items (SETVAR of a column / a literal / GETVAR(k')+column for 2 keys, GETVAR of each key, a plain column) x every table of 0..MaxRows rows x {empty map, map with k1 preset}, alone and followed by one of 3 second queries sharing the map; the register law is checked on the call history in every state. Every terminal behaviour is exported and replayed: rows and the caller's map are compared after every query. Leg T: seeded histories of 1-4 queries x 1-6 items x 0-6 rows over 3 keys with wrappers around the real SETVAR / GETVAR logging one event per call, validated against VarsTrace. Non-trivial: at least two calls; distinct = distinct (program, initial map).",
+		Rule:        "TLC explores the SETVAR / GETVAR state machine (Vars.tla, one action per call) for every select list of 1..MaxItems items drawn from 11 items (SETVAR of a column / a literal / GETVAR(k')+column for 2 keys, GETVAR of each key, a plain column) x every table of 0..MaxRows rows x {empty map, map with k1 preset}, alone and followed by one of 3 second queries sharing the map; the register law is checked on the call history in every state. Every terminal behaviour is exported and replayed: rows and the caller's map are compared after every query. Leg T: seeded histories of 1-4 queries x 1-6 items x 0-6 rows over 3 keys with wrappers around the real SETVAR / GETVAR logging one event per call, validated against VarsTrace. Non-trivial: at least two calls; distinct = distinct (program, initial map). Round 4: every history once more with the registers named by numbers whose %v text is in exponent form.",
 		Assumptions: append([]string{"the trace leg re-registers setvar / getvar as logging wrappers around the library's exported SetVarFunc / GetVarFunc; the replay leg uses the library's own registration"}, baseAssumptions...),
 		Quick:       []legCfg{mc("vars", "MC_C20", "C20_quick.cfg", 10*time.Minute), {Kind: "trace", Name: "vars", Module: "VarsTrace", TraceN: 150, TraceFiles: 4, Timeout: 10 * time.Minute, CallEv: "start", APIKinds: []string{"api", "vars", "set", "get"}}},
 		Thorough:    []legCfg{mc("vars", "MC_C20", "C20_thorough.cfg", 40*time.Minute), {Kind: "trace", Name: "vars", Module: "VarsTrace", TraceN: 800, TraceFiles: 12, Timeout: 20 * time.Minute, CallEv: "start", APIKinds: []string{"api", "vars", "set", "get"}}},
 	},
 	"C09": {
 		ID: "C09", Level: "model_checking", Exhaustive: true,
-		Rule:        "TLC enumerates documents {a: V, 'c.d': W} for 12 values V (scalars, NULL, objects, empty / flat / object / 2-D ragged / 3-D ragged / mixed arrays) x selectors `a` followed by up to Depth-1 (plus a reduced set of Depth) steps from 39 steps (keys incl. missing, 23 index lists with each / indices in and out of range / ranges with begin, end, inverted and overlong bounds, 7 keep=> lists, 5 pipes incl. conversions and an unknown type), with mix=> / distinct=> / an unknown function, with :: continuation, and through a quoted key and a missing root key. Every case: ExecReader on a fresh copy - value or error as the specification says, no panic, document deep-equal afterwards; object-array results also as the FROM path of a query; plus two byte-level mutations of the text (no panic, document untouched only). Non-trivial: a non-NULL value; distinct = distinct (document, selector).",
+		Rule:        "TLC enumerates documents {a: V, 'c.d': W} for 12 values V (scalars, NULL, objects, empty / flat / object / 2-D ragged / 3-D ragged / mixed arrays) x selectors `a` followed by up to Depth-1 (plus a reduced set of Depth) steps from 39 steps (keys incl. missing, 23 index lists with each / indices in and out of range / ranges with begin, end, inverted and overlong bounds, 7 keep=> lists, 5 pipes incl. conversions and an unknown type), with mix=> / distinct=> / an unknown function, with :: continuation, and through a quoted key and a missing root key. Every case: ExecReader on a fresh copy - value or error as the specification says, no panic, document deep-equal afterwards; object-array results also as the FROM path of a query; plus two byte-level mutations of the text (no panic, document untouched only). Non-trivial: a non-NULL value; distinct = distinct (document, selector). Round 4: indices and range bounds in 2^63 .. 2^64 directly on the value of the case: an error, never a value or a panic.",
 		Assumptions: baseAssumptions,
 		Quick:       []legCfg{mc("selectors", "MC_C09", "C09_quick.cfg", 10*time.Minute)},
 		Thorough:    []legCfg{mc("selectors", "MC_C09", "C09_thorough.cfg", 30*time.Minute)},
 	},
 	"C07": {
 		ID: "C07", Level: "model_checking", Exhaustive: true,
-		Rule:        "TLC enumerates documents (t: <= MaxRows rows with a numeric, a grouping column and a nested array of <= MaxNest objects; u: 0-2 rows) x query families: 7 inner queries (star, filter, GROUP BY with aggregates, ORDER BY + LIMIT, DISTINCT, computed column, empty) x 7 outer queries over the CTE; the same inners as aliased derived tables x 6 alias-qualified outers; CTE chains c -> d -> outer; a CTE referenced twice (source and <- IN subquery); a CTE read through a path selector c[0].n; 10 subquery shapes (select-list subquery plain / filtered / aggregate / rooted at <- / correlated through <-, IN subquery, EXISTS with and without an outer-column reference, NOT EXISTS, EXISTS AND ...). The invariant ComposedIsStaged compares RunQ with explicit materialise-then-run on the specification. Each case is replayed three ways: composed (= exported result), staged with the real engine (every CTE / derived table executed alone, result deep-copied into a plain document, outer query run over it), and select-list subqueries standalone on each kept row. Non-trivial: non-empty result; distinct = distinct (document, query).",
+		Rule:        "TLC enumerates documents (t: <= MaxRows rows with a numeric, a grouping column and a nested array of <= MaxNest objects; u: 0-2 rows) x query families: 7 inner queries (star, filter, GROUP BY with aggregates, ORDER BY + LIMIT, DISTINCT, computed column, empty) x 7 outer queries over the CTE; the same inners as aliased derived tables x 6 alias-qualified outers; CTE chains c -> d -> outer; a CTE referenced twice (source and <- IN subquery); a CTE read through a path selector c[0].n; 10 subquery shapes (select-list subquery plain / filtered / aggregate / rooted at <- / correlated through <-, IN subquery, EXISTS with and without an outer-column reference, NOT EXISTS, EXISTS AND ...). The invariant ComposedIsStaged compares RunQ with explicit materialise-then-run on the specification. Each case is replayed three ways: composed (= exported result), staged with the real engine (every CTE / derived table executed alone, result deep-copied into a plain document, outer query run over it), and select-list subqueries standalone on each kept row. Non-trivial: non-empty result; distinct = distinct (document, query). Round 4: every case with CTEs once more with the CTEs renamed to keyword-like words; EXISTS reaching the outer row through the outer table alias; CTEs, derived tables and row-scoped subqueries over dual.",
 		Assumptions: baseAssumptions,
 		Quick:       []legCfg{mc("compose", "MC_C07", "C07_quick.cfg", 10*time.Minute), tr("compose", "EngineTrace", 250, 4), mix(200, 3)},
 		Thorough:    []legCfg{mc("compose", "MC_C07", "C07_thorough.cfg", 40*time.Minute), tr("compose", "EngineTrace", 1500, 12), mix(1500, 12)},
 	},
 	"C08": {
 		ID: "C08", Level: "model_checking", Exhaustive: true,
-		Rule:        "TLC enumerates documents {m: array of arrays}: depth 2 with 1..MaxOuter inner arrays of 0..MaxLeaf rows each (ragged, empty inner arrays) and depth 3 (arrays of arrays of 0-1-row arrays), rows from LeafVals values, x 4 WHERE predicates x 4 select lists (star, column, a+1 AS b which would reveal a second projection, alias + missing column) x {FROM m, FROM mix=>m}. The invariants state the nested result as 'the flat query inside every innermost array' and the mix=> result as the concatenation. Each case is replayed: nested result = exported; the flat query is run for real on every innermost array alone and compared with the corresponding part; mix=> = concatenation of those runs. Non-trivial: at least two innermost arrays and a non-empty overall result; distinct = distinct (document, query).",
+		Rule:        "TLC enumerates documents {m: array of arrays}: depth 2 with 1..MaxOuter inner arrays of 0..MaxLeaf rows each (ragged, empty inner arrays) and depth 3 (arrays of arrays of 0-1-row arrays), rows from LeafVals values, x 4 WHERE predicates x 4 select lists (star, column, a+1 AS b which would reveal a second projection, alias + missing column) x {FROM m, FROM mix=>m}. The invariants state the nested result as 'the flat query inside every innermost array' and the mix=> result as the concatenation. Each case is replayed: nested result = exported; the flat query is run for real on every innermost array alone and compared with the corresponding part; mix=> = concatenation of those runs. Non-trivial: at least two innermost arrays and a non-empty overall result; distinct = distinct (document, query). Round 4: a column written with the table name in front, the direct run also under the table name itself, equal inner arrays as one Go slice.",
 		Assumptions: baseAssumptions,
 		Quick:       []legCfg{mc("nested", "MC_C08", "C08_quick.cfg", 10*time.Minute), tr("nested", "EngineTrace", 250, 4)},
 		Thorough:    []legCfg{mc("nested", "MC_C08", "C08_thorough.cfg", 40*time.Minute), tr("nested", "EngineTrace", 1500, 12)},
@@ -216,21 +216,21 @@ var props = map[string]*propCfg{
 	},
 	"C12": {
 		ID: "C12", Level: "model_checking", Exhaustive: true,
-		Rule:        "TLC enumerates the matrix of 27 expression forms (column, nested path, missing key, number / string / boolean / NULL literals, + / % ~ -, CASE with and without ELSE, CONCAT, ARRAY, IF, FIRST, TO_UPPER, UNWIND, object and array columns, select-list subquery plain and aggregate, ASYNC and SCOPED calls, nested calls) x 8-11 clause positions (select item, next to *, WHERE operand, CASE arm, function argument, IF argument, HAVING, DISTINCT, ORDER BY key, comparison operand, IN list) plus 17 statement-level forms (GROUP BY aggregates, group star, whole-table aggregates, CTE, derived table, UNION, EXISTS, IN subquery, ORDER BY + LIMIT/OFFSET, SPIN / SPINASYNC, several ASYNC items) x tables of 1..MaxRows rows, and checks that the specification's results are plain values and a function of (query, document). Each case is executed: reflection walk of the real result (only maps, slices, strings, booleans, nil, Go numbers that are finite; no pointer, func, named engine type, cycle, \"<-\" key), encoding/json round trip, and repetitions on equal inputs (2; 5 when ORDER BY leaves ties; 8 with ASYNC calls or NULL join keys): the identical sequence, or - only when grouping or a join is involved and ORDER BY does not determine a total order - the equal multiset. Statement forms include DISTINCT + ORDER BY with ties (with and without LIMIT) and joins on a table whose key is NULL / missing in some rows. Non-trivial: a non-empty successful result; distinct = distinct (document, query).",
+		Rule:        "TLC enumerates the matrix of 27 expression forms (column, nested path, missing key, number / string / boolean / NULL literals, + / % ~ -, CASE with and without ELSE, CONCAT, ARRAY, IF, FIRST, TO_UPPER, UNWIND, object and array columns, select-list subquery plain and aggregate, ASYNC and SCOPED calls, nested calls) x 8-11 clause positions (select item, next to *, WHERE operand, CASE arm, function argument, IF argument, HAVING, DISTINCT, ORDER BY key, comparison operand, IN list) plus 17 statement-level forms (GROUP BY aggregates, group star, whole-table aggregates, CTE, derived table, UNION, EXISTS, IN subquery, ORDER BY + LIMIT/OFFSET, SPIN / SPINASYNC, several ASYNC items) x tables of 1..MaxRows rows, and checks that the specification's results are plain values and a function of (query, document). Each case is executed: reflection walk of the real result (only maps, slices, strings, booleans, nil, Go numbers that are finite; no pointer, func, named engine type, cycle, \"<-\" key), encoding/json round trip, and repetitions on equal inputs (2; 5 when ORDER BY leaves ties; 8 with ASYNC calls or NULL join keys): the identical sequence, or - only when grouping or a join is involved and ORDER BY does not determine a total order - the equal multiset. Statement forms include DISTINCT + ORDER BY with ties (with and without LIMIT) and joins on a table whose key is NULL / missing in some rows. Non-trivial: a non-empty successful result; distinct = distinct (document, query). Round 4: joins cut by a LIMIT without ORDER BY (the same rows on every evaluation), FROM dual at the top and in row-scoped subqueries, and driver texts: 44 statement texts outside the AST (dual under a WITH, derived tables with ASYNC items on both sides of a join, tuples, FUSE, arithmetic beyond the largest float64, CHANGETYPE of NaN / Inf ...) as built and as decoded by encoding/json - plain by reflection and JSON round trip (or an error where the text says so), equal on six repetitions and on a second Exec of the same Query.",
 		Assumptions: baseAssumptions,
 		Quick:       []legCfg{mc("matrix", "MC_C12", "C12_quick.cfg", 10*time.Minute), {Kind: "exec", Name: "texts", Mode: "texts", Timeout: 5 * time.Minute}},
 		Thorough:    []legCfg{mc("matrix", "MC_C12", "C12_thorough.cfg", 30*time.Minute), mc("compose", "MC_C07", "C11_C07.cfg", 10*time.Minute), mc("group", "MC_C03", "C11_C03.cfg", 10*time.Minute), {Kind: "exec", Name: "texts", Mode: "texts", Timeout: 5 * time.Minute}},
 	},
 	"C04": {
 		ID: "C04", Level: "model_checking", Exhaustive: true,
-		Rule:        "TLC enumerates every pair of tables of 0..MaxRows rows (quick: <= 1 row per side with all 50 ON expressions and <= 2 rows with a core of 7; thorough: <= 2 rows with all 50 and <= 3 rows with the core) (two join columns per side - a number and a string - whose names sort differently on the two sides, duplicate keys, with Wide strings containing the key-text separator, with Big the numeric keys 2^24 and 2^24 + 1; Many: two pairs of fixed long tables with 37 / 40 against 35 / 33 partly overlapping keys) x 50 ON expressions (every comparison operator in both orientations on the numeric pair, =, !=, < on the string pair, AND / OR of two comparisons in either order and orientation, one column compared twice) x {INNER, LEFT, RIGHT}, and checks that the operational models of the hash join and of the nested loop (Joins.tla) are bag-equal to the textbook join for every strategy Join.Exec can choose. Each case is executed under every spelling of the strategy (JOIN, INNER JOIN, HASH_JOIN, STRAIGHT_JOIN, PARALLEL JOIN, PARALLEL HASH_JOIN, PARALLEL STRAIGHT_JOIN; LEFT / RIGHT x {JOIN, HASH_JOIN, PARALLEL JOIN, PARALLEL HASH_JOIN}; PARALLEL ones three times; every run once more with the left side's numeric keys held as Go ints against float64 on the right - and every other right row an int as well, so that one side holds the same number under two Go types) and the result compared as a multiset with the exported textbook result. Non-trivial: non-empty join result; distinct = distinct (tables, ON, type).",
+		Rule:        "TLC enumerates every pair of tables of 0..MaxRows rows (quick: <= 1 row per side with all 50 ON expressions and <= 2 rows with a core of 7; thorough: <= 2 rows with all 50 and <= 3 rows with the core) (two join columns per side - a number and a string - whose names sort differently on the two sides, duplicate keys, with Wide strings containing the key-text separator, with Big the numeric keys 2^24 and 2^24 + 1; Many: two pairs of fixed long tables with 37 / 40 against 35 / 33 partly overlapping keys) x 50 ON expressions (every comparison operator in both orientations on the numeric pair, =, !=, < on the string pair, AND / OR of two comparisons in either order and orientation, one column compared twice) x {INNER, LEFT, RIGHT}, and checks that the operational models of the hash join and of the nested loop (Joins.tla) are bag-equal to the textbook join for every strategy Join.Exec can choose. Each case is executed under every spelling of the strategy (JOIN, INNER JOIN, HASH_JOIN, STRAIGHT_JOIN, PARALLEL JOIN, PARALLEL HASH_JOIN, PARALLEL STRAIGHT_JOIN; LEFT / RIGHT x {JOIN, HASH_JOIN, PARALLEL JOIN, PARALLEL HASH_JOIN}; PARALLEL ones three times; every run once more with the left side's numeric keys held as Go ints against float64 on the right - and every other right row an int as well, so that one side holds the same number under two Go types) and the result compared as a multiset with the exported textbook result. Non-trivial: non-empty join result; distinct = distinct (tables, ON, type). Round 4: every case also with the aliases renamed to t / t2, t2 / t, orders / ord; driver volume instantiates HashCore on two tables of 560 000 (thorough 1 100 000) rows with pairwise distinct keys per side (closed-form result: one pair per common key, plus one NULL-extended row per other left key in a left join) with float64, int and (thorough) string keys.",
 		Assumptions: baseAssumptions,
 		Quick:       []legCfg{mc("allons", "MC_C04", "C04_quick.cfg", 15*time.Minute), mc("rows2", "MC_C04", "C04_quick2.cfg", 15*time.Minute), mc("wide", "MC_C04", "C04_wide.cfg", 15*time.Minute), mc("big2", "MC_C04", "C04_big2.cfg", 15*time.Minute), mc("many", "MC_C04", "C04_many.cfg", 15*time.Minute), tr("joins", "EngineTrace", 250, 4), {Kind: "exec", Name: "volume", Mode: "volume", Timeout: 20 * time.Minute}},
 		Thorough:    []legCfg{mc("joins", "MC_C04", "C04_full2.cfg", 30*time.Minute), mc("wide", "MC_C04", "C04_wide.cfg", 15*time.Minute), mc("big", "MC_C04", "C04_big.cfg", 15*time.Minute), mc("big2", "MC_C04", "C04_big2.cfg", 15*time.Minute), mc("many", "MC_C04", "C04_many.cfg", 15*time.Minute), mc("rows3", "MC_C04", "C04_thorough.cfg", 90*time.Minute), tr("joins", "EngineTrace", 1500, 12), {Kind: "exec", Name: "volume", Mode: "volume", Timeout: 20 * time.Minute}},
 	},
 	"C14": {
 		ID: "C14", Level: "model_checking", Exhaustive: true,
-		Rule:        "TLC explores every interleaving of the main goroutine (one step per row) with the start / finish steps of every ASYNC, SPINASYNC and SPIN call for seven configurations (col+async on 3 rows; async+spinasync+sync, once+async+spin, async+col+async, a NULL-returning ONCE + async on 2 rows; spinasync+col and col+async inside a nested query whose wait group is chained to the outer one - replayed as a derived table, as a CTE body, as a derived table on the left and on the right side of a join, and as the left side of a join below the top level whose right side has ASYNC calls of its own; the top-level configurations also over a two-dimensional table; async+failing call+spinasync on 3 rows and spinasync+async+failing call on 2 rows, where an unqualified call fails the query at row 2; async+spinasync+once on 2 rows with an empty window, replayed as LIMIT 0 and as an OFFSET past the last row), checking at Return that every ASYNC / SPINASYNC call was invoked exactly once and completed, that values sit in their columns, that SPIN / SPINASYNC add no column and that ONCE ran once - and termination under fairness; after a failing row that every call the query got to has completed and none ran twice; four deviation configurations (wait group incremented inside the goroutine; outer query not chained to the nested wait group; a failed Exec returning without waiting; an Exec with an empty window returning without waiting) must violate AllCompleted. Every terminal behaviour is exported as a schedule and forced onto the real engine with gates inside the harness's own functions (the main goroutine is gated by an unqualified mark(a) placed first in the select list): Exec returning while a gated ASYNC / SPINASYNC call is still held is a violation, as are wrong invocation counts, rows or columns. Leg T: free-running goroutines with zero / skewed / random latencies on 2-6 rows, events recorded with a sequence number under one lock and validated against AsyncTrace (a 'ret' event is only enabled once the wait group has drained). Immediate functions under ASYNC / SPIN / SPINASYNC must be rejected: Registry.tla enumerates every history of <= 4 (thorough 6) registrations of two names as ordinary / immediate functions (ImmediateRejects, OrdinaryRuns, LatestWins; toggling on re-registration must violate ImmediateRejects) and each history is replayed on the process-wide registry, asking the engine after every registration (rejected without running the function / accepted with the unqualified call's value); the built-in immediate functions are driven directly. A driver executes a Query whose first Exec fails (a function failing on its first call) a second time: every ASYNC value of the second run in place. Non-trivial: every schedule and history; distinct = distinct schedules.",
+		Rule:        "TLC explores every interleaving of the main goroutine (one step per row) with the start / finish steps of every ASYNC, SPINASYNC and SPIN call for seven configurations (col+async on 3 rows; async+spinasync+sync, once+async+spin, async+col+async, a NULL-returning ONCE + async on 2 rows; spinasync+col and col+async inside a nested query whose wait group is chained to the outer one - replayed as a derived table, as a CTE body, as a derived table on the left and on the right side of a join, and as the left side of a join below the top level whose right side has ASYNC calls of its own; the top-level configurations also over a two-dimensional table; async+failing call+spinasync on 3 rows and spinasync+async+failing call on 2 rows, where an unqualified call fails the query at row 2; async+spinasync+once on 2 rows with an empty window, replayed as LIMIT 0 and as an OFFSET past the last row), checking at Return that every ASYNC / SPINASYNC call was invoked exactly once and completed, that values sit in their columns, that SPIN / SPINASYNC add no column and that ONCE ran once - and termination under fairness; after a failing row that every call the query got to has completed and none ran twice; four deviation configurations (wait group incremented inside the goroutine; outer query not chained to the nested wait group; a failed Exec returning without waiting; an Exec with an empty window returning without waiting) must violate AllCompleted. Every terminal behaviour is exported as a schedule and forced onto the real engine with gates inside the harness's own functions (the main goroutine is gated by an unqualified mark(a) placed first in the select list): Exec returning while a gated ASYNC / SPINASYNC call is still held is a violation, as are wrong invocation counts, rows or columns. Leg T: free-running goroutines with zero / skewed / random latencies on 2-6 rows, events recorded with a sequence number under one lock and validated against AsyncTrace (a 'ret' event is only enabled once the wait group has drained). Immediate functions under ASYNC / SPIN / SPINASYNC must be rejected: Registry.tla enumerates every history of <= 4 (thorough 6) registrations of two names as ordinary / immediate functions (ImmediateRejects, OrdinaryRuns, LatestWins; toggling on re-registration must violate ImmediateRejects) and each history is replayed on the process-wide registry, asking the engine after every registration (rejected without running the function / accepted with the unqualified call's value); the built-in immediate functions are driven directly. A driver executes a Query whose first Exec fails (a function failing on its first call) a second time: every ASYNC value of the second run in place. Non-trivial: every schedule and history; distinct = distinct schedules. Round 4: item kind oncearg - a ONCE call whose argument has a value on the first row only.",
 		Assumptions: append([]string{"gates synchronise the goroutines, so forced schedules expose logical outcomes only; memory races are the race detector's job (C13)"}, baseAssumptions...),
 		CaseTimeout: 60 * time.Second,
 		Quick: []legCfg{
@@ -277,7 +277,7 @@ var props = map[string]*propCfg{
 	},
 	"C13": {
 		ID: "C13", Level: "model_checking", Race: true,
-		Rule:        "Cache.tla: all interleavings of 3 goroutines x 2 selector texts through the cache protocol of ExecReader with map accesses as begin / end pairs (NoOverlap, OwnEntry, UnderLock, NoSelfDeadlock with a goroutine whose evaluation re-enters ExecReader to resolve a CTE, termination under fairness); the pinned read-after-unlock protocol must violate NoOverlap and holding the mutex during evaluation NoSelfDeadlock. Markers.tla (C11) adds RowsUntouched: a query writes nothing into the caller's rows at any time, which is what makes one document shareable. Binding: (T) the guarded hook in ExecReader reports every protocol step of every goroutine with the fact whether the cache mutex is held (TryLock); 2-8 free-running goroutines evaluate fresh and shared selector texts and the recorded sequence is validated against CacheTrace (lock only a free mutex, store / read only as holder, fact = held at every step). (X) 30 scenario classes - separate documents / one shared document; fresh / cached selector texts; filter, projection, select-list subquery, EXISTS, IN subquery, CTE, GROUP BY, ORDER BY, Wrapped, PARALLEL joins, ASYNC / SPINASYNC at top level, in a subquery and in a derived table, CTEs read through a path, one open-range selector text over arrays of different lengths, a lone * with and without ORDER BY / LIMIT / DISTINCT and an unaliased join on the shared document, and two cold classes (rounds of a RegisterImmediateFunction that has returned followed by concurrent first function calls, with the expectation written down instead of obtained from the library) - x 2..8 (thorough 2..16) goroutines x 60 (300) queries each, in a child process built with the race detector: every goroutine's result must equal the query's result when run alone, and a race report, a 'concurrent map' fatal error, a crash, a hang or a modified shared document is a violation. Non-trivial: every scenario run; distinct = distinct (scenario, goroutine count).",
+		Rule:        "Cache.tla: all interleavings of 3 goroutines x 2 selector texts through the cache protocol of ExecReader with map accesses as begin / end pairs (NoOverlap, OwnEntry, UnderLock, NoSelfDeadlock with a goroutine whose evaluation re-enters ExecReader to resolve a CTE, termination under fairness); the pinned read-after-unlock protocol must violate NoOverlap and holding the mutex during evaluation NoSelfDeadlock. Markers.tla (C11) adds RowsUntouched: a query writes nothing into the caller's rows at any time, which is what makes one document shareable. Binding: (T) the guarded hook in ExecReader reports every protocol step of every goroutine with the fact whether the cache mutex is held (TryLock); 2-8 free-running goroutines evaluate fresh and shared selector texts and the recorded sequence is validated against CacheTrace (lock only a free mutex, store / read only as holder, fact = held at every step). (X) 30 scenario classes - separate documents / one shared document; fresh / cached selector texts; filter, projection, select-list subquery, EXISTS, IN subquery, CTE, GROUP BY, ORDER BY, Wrapped, PARALLEL joins, ASYNC / SPINASYNC at top level, in a subquery and in a derived table, CTEs read through a path, one open-range selector text over arrays of different lengths, a lone * with and without ORDER BY / LIMIT / DISTINCT and an unaliased join on the shared document, and two cold classes (rounds of a RegisterImmediateFunction that has returned followed by concurrent first function calls, with the expectation written down instead of obtained from the library) - x 2..8 (thorough 2..16) goroutines x 60 (300) queries each, in a child process built with the race detector: every goroutine's result must equal the query's result when run alone, and a race report, a 'concurrent map' fatal error, a crash, a hang or a modified shared document is a violation. Non-trivial: every scenario run; distinct = distinct (scenario, goroutine count). Round 4 classes: one new statement text in every goroutine at the same time (USING joins, a WITH in front of a UNION), ASYNC / SPINASYNC calls whose arguments are subqueries, EXISTS inside the ON of PARALLEL joins.",
 		Assumptions: append([]string{"the Go race detector and the process exit status are observation channels on the executions the scenario driver produces; races in code no scenario exercises are not seen", "goroutine schedules are those the Go scheduler produces during the runs (not enumerated)"}, baseAssumptions...),
 		Quick: []legCfg{
 			{Kind: "mc", Name: "cache", Module: "Cache", Cfg: "Cache_ok.cfg", Timeout: 5 * time.Minute, TLCWorkers: 4, NoExport: true},
@@ -300,14 +300,14 @@ var props = map[string]*propCfg{
 	},
 	"C16": {
 		ID: "C16", Level: "model_checking", Exhaustive: true,
-		Rule:        "Lexers.tla models the sanitizer (its lexer state by state, QuoteString) and the string / quoted-identifier / comment scanning of the MySQL-dialect tokenizer (backslash decoding as in scanStringSlow). TLC enumerates every argument string of length <= MaxLen over an adversarial alphabet (quote, backslash, double quote, dash, hash, star, slash, space, a letter, percent, NUL, a two-byte rune, newline, back quote) x templates with placeholders in literal positions - also next to $n inside a string literal containing an escaped quote, a back-quoted identifier, a back-quoted identifier ending in a backslash followed by a literal holding a back quote, a block comment, a # comment and a -- comment - and checks that the tokens of the sanitized text are the template's tokens with one string literal per placeholder whose decoded content is exactly the argument (Safe), that QuoteString followed by the tokenizer's scanning is the identity, that $0 / missing / unused arguments are errors. Every case is replayed: the real SanitizeSQL output must equal the specification's text, the real parser's AST of the sanitized text must have the shape of the template with a plain literal, and executing it must echo the argument. A driver adds int64, float64, bool and nil arguments and the arity errors. Non-trivial: the argument contains a character that is special for the sanitizer or the tokenizer; distinct = distinct (template, argument).",
+		Rule:        "Lexers.tla models the sanitizer (its lexer state by state, QuoteString) and the string / quoted-identifier / comment scanning of the MySQL-dialect tokenizer (backslash decoding as in scanStringSlow). TLC enumerates every argument string of length <= MaxLen over an adversarial alphabet (quote, backslash, double quote, dash, hash, star, slash, space, a letter, percent, NUL, a two-byte rune, newline, back quote) x templates with placeholders in literal positions - also next to $n inside a string literal containing an escaped quote, a back-quoted identifier, a back-quoted identifier ending in a backslash followed by a literal holding a back quote, a block comment, a # comment and a -- comment - and checks that the tokens of the sanitized text are the template's tokens with one string literal per placeholder whose decoded content is exactly the argument (Safe), that QuoteString followed by the tokenizer's scanning is the identity, that $0 / missing / unused arguments are errors. Every case is replayed: the real SanitizeSQL output must equal the specification's text, the real parser's AST of the sanitized text must have the shape of the template with a plain literal, and executing it must echo the argument. A driver adds int64, float64, bool and nil arguments and the arity errors. Non-trivial: the argument contains a character that is special for the sanitizer or the tokenizer; distinct = distinct (template, argument). Round 4: a template holding the replacement character U+FFFD itself.",
 		Assumptions: append([]string{"non-finite floats (NaN, Inf) are outside the claim; []byte and time.Time arguments are not covered"}, baseAssumptions...),
 		Quick:       []legCfg{mc("strings", "MC_C16", "C16_quick.cfg", 15*time.Minute), {Kind: "exec", Name: "kinds", Mode: "kinds", Timeout: 2 * time.Minute}},
 		Thorough:    []legCfg{mc("strings", "MC_C16", "C16_thorough.cfg", 120*time.Minute), mc("deep", "MC_C16", "C16_deep.cfg", 120*time.Minute), mc("deep9", "MC_C16", "C16_deep9.cfg", 30*time.Minute), {Kind: "exec", Name: "kinds", Mode: "kinds", Timeout: 2 * time.Minute}},
 	},
 	"C17": {
 		ID: "C17", Level: "model_checking", Exhaustive: true,
-		Rule:        "Lexers.tla models DoubleQuotesToBackTick and FindArrayIndex / FixIdiomaticArray as coded next to the tokenizer model. TLC enumerates (a) token sequences of one to two quoted identifiers / single-quoted literals with every content of length <= MaxContent over {a, double quote, quote, back quote, backslash (literals only), [, ], space} in the double-quoted spelling and checks that the rewritten text is read by the tokenizer exactly like the back-quoted spelling (identifier and literal contents untouched); (b) every sequence of <= MaxBrTokens tokens over {[, ], a character, literals and identifiers containing brackets, quotes and a backslash} in the bracket spelling and checks that balanced ones become the ARRAY( ) spelling verbatim and unbalanced ones an error. Every text is replayed: the real rewriter's output must equal the specification's text (an error for unbalanced brackets, also through New: never a panic). End to end: reduced configurations of the C02 (projection), C12 (form x position matrix incl. ARRAY calls), C07 (CTEs / subqueries) and C01 families are executed under all 8 combinations of PostgresEscapingDialect / IdiomaticArrays / Wrapped, each rendered in the matching spelling (every identifier double-quoted, ARRAY as [ ], paths under root), and must return the exported result; Wrapped() is also compared with passing {root: input} explicitly. Non-trivial: every scanner case; engine cases with a non-empty result; distinct = distinct texts / (document, query).",
+		Rule:        "Lexers.tla models DoubleQuotesToBackTick and FindArrayIndex / FixIdiomaticArray as coded next to the tokenizer model. TLC enumerates (a) token sequences of one to two quoted identifiers / single-quoted literals with every content of length <= MaxContent over {a, double quote, quote, back quote, backslash (literals only), [, ], space} in the double-quoted spelling and checks that the rewritten text is read by the tokenizer exactly like the back-quoted spelling (identifier and literal contents untouched); (b) every sequence of <= MaxBrTokens tokens over {[, ], a character, literals and identifiers containing brackets, quotes and a backslash} in the bracket spelling and checks that balanced ones become the ARRAY( ) spelling verbatim and unbalanced ones an error. Every text is replayed: the real rewriter's output must equal the specification's text (an error for unbalanced brackets, also through New: never a panic). End to end: reduced configurations of the C02 (projection), C12 (form x position matrix incl. ARRAY calls), C07 (CTEs / subqueries) and C01 families are executed under all 8 combinations of PostgresEscapingDialect / IdiomaticArrays / Wrapped, each rendered in the matching spelling (every identifier double-quoted, ARRAY as [ ], paths under root), and must return the exported result; Wrapped() is also compared with passing {root: input} explicitly. Non-trivial: every scanner case; engine cases with a non-empty result; distinct = distinct texts / (document, query). Round 4: double-quoted identifiers holding backslashes, statements with 15-33 brackets.",
 		Assumptions: append([]string{"identifier contents containing a backslash are outside the claim: the double-quoted spelling has no unambiguous way to write them for DoubleQuotesToBackTick"}, baseAssumptions...),
 		Quick: []legCfg{mc("scanners", "MC_C17", "C17_quick.cfg", 10*time.Minute), mc("proj", "MC_C02", "C17_C02.cfg", 10*time.Minute), mc("matrix", "MC_C12", "C12_quick.cfg", 10*time.Minute),
 			mc("compose", "MC_C07", "C11_C07.cfg", 10*time.Minute)},
@@ -316,7 +316,7 @@ var props = map[string]*propCfg{
 	},
 	"C10": {
 		ID: "C10", Level: "exploration",
-		Rule:        "Contain.tla models one New + Exec call passing through its regions with a panic possible at every step in the API goroutine and in every background goroutine (strategy calls, PARALLEL join workers) and a re-entrant CTE resolution; TLC checks that the process survives, nothing escapes the API and the call returns, and that removing any one recover (or the CTE guard) violates that - the five deviation configurations are the pinned tree's gaps. Binding by exploration: TLC enumerates the matrix of 114 constructs (every unsupported / malformed / failing construct the property names and many more: joins without condition, chained unions, self- and mutually-referencing CTEs, unbalanced brackets, out-of-range FROM paths, PARALLEL joins and ASYNC / SPIN / SPINASYNC / ONCE calls whose function fails or panics with an error or a non-error value, panics inside CTE bodies / derived tables / subqueries, DISTINCT over a subquery plus *, CTEs over dual read with DISTINCT / UNION / ORDER BY, deep nesting, malformed and non-SELECT statements, NUL bytes, invalid UTF-8, ...) x all 8 combinations of Wrapped / PostgresEscapingDialect / IdiomaticArrays x {well-shaped, empty, wrong-shaped, wide (40 rows), grid (rows that are arrays)} documents; every cell is executed, followed by 6 (thorough: 60) seeded byte-level mutations of its text: New / Exec must return. A panic escaping the API is caught by the worker; a dying process (goroutine panic, fatal error, stack overflow) or a case exceeding its time limit is attributed to the cell by the orchestrator. Non-trivial: every cell; distinct = distinct (construct, options, document).",
+		Rule:        "Contain.tla models one New + Exec call passing through its regions with a panic possible at every step in the API goroutine and in every background goroutine (strategy calls, PARALLEL join workers) and a re-entrant CTE resolution; TLC checks that the process survives, nothing escapes the API and the call returns, and that removing any one recover (or the CTE guard) violates that - the five deviation configurations are the pinned tree's gaps. Binding by exploration: TLC enumerates the matrix of 138 constructs (every unsupported / malformed / failing construct the property names and many more: joins without condition, chained unions, self- and mutually-referencing CTEs, unbalanced brackets, out-of-range FROM paths, PARALLEL joins and ASYNC / SPIN / SPINASYNC / ONCE calls whose function fails or panics with an error or a non-error value, panics inside CTE bodies / derived tables / subqueries, DISTINCT over a subquery plus *, CTEs over dual read with DISTINCT / UNION / ORDER BY, deep nesting, malformed and non-SELECT statements, NUL bytes, invalid UTF-8, ...) x all 8 combinations of Wrapped / PostgresEscapingDialect / IdiomaticArrays x {well-shaped, empty, wrong-shaped, wide (40 rows), grid (rows that are arrays)} documents; every cell is executed, followed by 6 (thorough: 60) seeded byte-level mutations of its text: New / Exec must return. A panic escaping the API is caught by the worker; a dying process (goroutine panic, fatal error, stack overflow) or a case exceeding its time limit is attributed to the cell by the orchestrator. Non-trivial: every cell; distinct = distinct (construct, options, document). Round 4: a value that contains itself (a CTE row that selected the <- back-reference) in every place that prints a value - WHERE / IN / BETWEEN / LIKE / CASE comparisons, join keys, CONCAT, CHANGETYPE, SUM, SETVAR keys, RAISE, a second ORDER BY key, GROUP BY.",
 		Assumptions: append([]string{"'for all byte strings' is sampled: the exact matrix cells plus seeded mutations around them; inputs the harness does not run are not decided", "a hang is a case (the exact text and its mutations) that does not answer within 60 s (thorough: 240 s)"}, baseAssumptions...),
 		Quick: []legCfg{
 			{Kind: "mc", Name: "contain", Module: "Contain", Cfg: "Contain_ok.cfg", Timeout: 5 * time.Minute, TLCWorkers: 2, NoExport: true},
